@@ -257,7 +257,7 @@ def work(lines):
         h = zlib.crc32(json.dumps(toks).encode())
         lays = [layouts[0]] + ([layouts[1 + h % (len(layouts) - 1)]] if len(layouts) > 1 and ctx["nlay"] == 2 else layouts[1:ctx["nlay"]])
         sufs = [""]
-        if nrunning == 0 and all(q[1] == "rej" for q in outs):
+        if nrunning == 0 and all(q[1] in ("rej", "rejlate") for q in outs):
             sufs = [""] + [suffixes[(h + k) % len(suffixes)] for k in range(ctx["nsuf"])]
         base = {}
         for lay in lays:
